@@ -83,21 +83,28 @@ F4 ==
 (* F7: content outside Netspoc's scope: unknown interface, unmanaged VRF, spare ACL *)
 F7 ==
   \E a, b \in InjSeqs(Pool, MaxLen),
-     ovl \in SUBSET {"unknown-intf-own-acl", "unknown-intf-shared-acl", "spare-acl", "vrf9", "vrf9-shared-acl", "vrf9-route"} :
+     ovl \in SUBSET {"unknown-intf-own-acl", "unknown-intf-shared-acl", "spare-acl", "vrf9", "vrf9-shared-acl", "vrf9-route", "vrf9-two"} :
+    \* vrf9-two: a second interface (E1) in the unmanaged VRF with a generated ACL name of its own
+    /\ ("vrf9-two" \in ovl => {"vrf9", "vrf9-shared-acl"} \cap ovl # {})
     /\ ~({"unknown-intf-own-acl", "unknown-intf-shared-acl"} \subseteq ovl)
     /\ ~({"vrf9", "vrf9-shared-acl"} \subseteq ovl)
     /\ LET ov == <<Ace("permit", "ip", T("host", "h4"), T("any", ""))>>
+           \* with two interfaces in the unmanaged VRF both of their ACLs carry generated names
+           E3Acl == IF "vrf9-two" \in ovl THEN "E3_in-DRC-0" ELSE "E3_in"
            acls == [n \in {"E0_in"}
                       \cup (IF "unknown-intf-own-acl" \in ovl THEN {"foreign"} ELSE {})
                       \cup (IF "spare-acl" \in ovl THEN {"spare"} ELSE {})
-                      \cup (IF "vrf9" \in ovl THEN {"E3_in"} ELSE {})
+                      \cup (IF "vrf9" \in ovl THEN {E3Acl} ELSE {})
+                      \cup (IF "vrf9-two" \in ovl THEN {"E1_in-DRC-0"} ELSE {})
                    |-> IF n = "E0_in" THEN a ELSE ov]
            intfs == [i \in {"E0"}
                       \cup (IF {"unknown-intf-own-acl", "unknown-intf-shared-acl"} \cap ovl # {} THEN {"E2"} ELSE {})
                       \cup (IF {"vrf9", "vrf9-shared-acl"} \cap ovl # {} THEN {"E3"} ELSE {})
+                      \cup (IF "vrf9-two" \in ovl THEN {"E1"} ELSE {})
                     |-> CASE i = "E0" -> I("", "E0_in", "")
+                          [] i = "E1" -> I("v9", "E1_in-DRC-0", "")
                           [] i = "E2" -> I("", IF "unknown-intf-own-acl" \in ovl THEN "foreign" ELSE "E0_in", "")
-                          [] i = "E3" -> I("v9", IF "vrf9" \in ovl THEN "E3_in" ELSE "E0_in", "")]
+                          [] i = "E3" -> I("v9", IF "vrf9" \in ovl THEN E3Acl ELSE "E0_in", "")]
            routes == IF "vrf9-route" \in ovl THEN {[vrf |-> "v9", dst |-> "n12", gw |-> "gA"]} ELSE {}
        IN /\ dev = Cfg(acls, intfs, routes, FALSE)
           /\ tgt = Cfg([E0_in |-> b], [E0 |-> I("", "E0_in", "")], {}, FALSE)
